@@ -33,7 +33,7 @@ from ..cfg import CFG, Node, cfg_of
 from ..dataflow import Def, ReachingDefs, bound_in_enclosing_comp
 from ..loader import AnalysisError, FuncInfo, const_str, dotted, is_self_attr, norm, walk_no_nested
 from ..report import Ctx
-from ._c12_helpers import UNKNOWN, BudgetExceeded, ConstExec, alias_values_rule, build_order_rule, defaults_provider_rule, matcher_rules
+from ._c12_helpers import UNKNOWN, BudgetExceeded, ConstExec, alias_values_rule, build_order_rule, composed_parts, defaults_provider_rule, matcher_rules
 
 LEVEL_TEXT = (
     "Static decision of structural clauses of C12 on /repo's current source, by abstract interpretation of MapAdapter.match "
@@ -41,16 +41,16 @@ LEVEL_TEXT = (
     "URL that is assembled): (R12.1) every router-made RequestRedirect carries a URL assembled position by position, whose "
     "scheme and host positions receive no data derived from the request path, the query arguments or a matcher exception, "
     "and whose path position is <bound prefix containing the script root> + '/' + <request data with its leading slashes "
-    "stripped>; urljoin never sees request data outside the application-supplied redirect_to branch; (R12.2) the path "
-    "handed to the matcher is '/' + the request path with leading slashes stripped; (R12.3) the query position of each of "
+    "stripped>; the path position is judged for the URL shapes that are the value of a router redirect (a scheme://host prefix that is extended further, or the redirect_to base, is noted only); urljoin never sees request data outside the application-supplied redirect_to branch; (R12.2) the path "
+    "handed to the matcher is '/' + the request path with leading slashes stripped (also when a helper method of the adapter puts it together and returns it, alone or in a tuple); (R12.3) the query position of each of "
     "those URLs receives the query_args of this match() call, either unchanged or through the mapping encoder; (R12.4) "
     "encode_query_args returns a str argument itself; (R12.5) in the state machine matcher a slash redirect is proposed "
     "only for a rule that admits the request method and websocket flag (decided by walking the loop iteration's CFG under "
     "every valuation of the admission facts, so independent of how the conditions are spelled), and a merged-slash redirect "
-    "only after the merged path matched; (R12.6) where the matcher turns the missing-slash signal of a walk of path P into a "
-    "redirect, the target is that same P + '/' (same expression, same reaching definitions); (R12.7) the values the "
+    "only after the merged path matched (a target chosen in a local per branch and raised once is judged where it is assigned); (R12.6) where the matcher turns the missing-slash signal of a walk of path P into a "
+    "redirect, the target is that same P + '/' (same expression, same reaching definitions - in the handler a name the handler does not rebind has the definitions that reach the walk call whose signal entered it); (R12.7) the values the "
     "matcher raises with the alias-redirect signal (from which the adapter builds the canonical URL) have received "
-    "everything the values of the match result receive - converter values and the rule's defaults: may-flow into the "
+    "everything the values of the match result (the pairs match() returns itself or through a helper of the matcher whose result it returns as it is) receive - converter values and the rule's defaults: may-flow into the "
     "mapping over the CFG, counting only writes that can precede the raise under consistent guards; a necessary condition "
     "of 'the target denotes the same arguments'; (R12.8) scheme clause of 'points at the scheme the adapter was bound to': "
     "for an adapter bound to http, https, ws or wss the scheme position of every redirect URL, evaluated by a "
@@ -66,10 +66,10 @@ LEVEL_TEXT = (
     "whose argument sets are equal, a proper superset, a proper subset, overlapping and disjoint, with and without defaults on the matched "
     "rule) is false whenever the argument sets differ - otherwise the defaults redirect denotes other arguments than the request - and "
     "false for a build-only candidate (its URL matches nothing); (R12.11) convergence premise of the alias and defaults redirects: the sort "
-    "key of the per-endpoint rule lists, evaluated on symbolic (non-alias, alias) rule pairs with 0..2 arguments and every number of "
+    "key of the per-endpoint rule lists (the sort may sit in a helper the Map hands the list to), evaluated on symbolic (non-alias, alias) rule pairs with 0..2 arguments and every number of "
     "defaults, places the alias rule strictly after the non-alias rule with the same number of arguments - otherwise build() answers an "
     "alias redirect with the alias rule's own URL, and the canonical URL is defaults-redirected to the alias. Decided on all paths of the "
-    "analysed functions. Values are followed element-wise through tuples, mappings with constant keys, lists / generators / iterators "
+    "analysed functions. Strings put together by f-string, +, str.join of a literal tuple, str.format with plain positional fields and % with %s are read alike. Values are followed element-wise through tuples, mappings with constant keys, lists / generators / iterators "
     "(yield, next(), for, comprehensions, iter(callable, sentinel)), item stores and mutating calls on locals, * / ** arguments taken from "
     "literal tuples / tables, and through methods (also static / class-level) and module-level functions of the routing package; where request "
     "data reaches a scheme or host position, or an assembled URL, path prefix or slash stripping can only be judged, through a construct that is "
@@ -90,6 +90,8 @@ TRUSTED = [
     "Python semantics of containers and iteration: a for loop / next() / comprehension over a generator, list, tuple or set gives the values that were yielded / stored; d[k], d.get(k), **d read what was stored under k",
     "Python semantics of constants: comparison, `in` on set/tuple/frozenset displays, and/or/not, conditional expressions, str concatenation and the str methods lower/upper/strip/startswith/endswith/removeprefix/removesuffix/partition/join",
     "Python semantics of frozenset constants (==, <=, >=, -, &, |, ^, issubset/issuperset/isdisjoint), len(), int(), bool(), unary minus, tuple comparison, and of list.sort / sorted: ascending by key (descending with reverse=True), stable",
+    "Python semantics of str.format with plain positional fields and of % with %s (str() of the argument inserted), all() / any() over a sequence, a comprehension / starred element over a constant tuple, a bool used as a tuple index (0 / 1)",
+    "an except handler that does not rebind a name sees the value the name had when the protected call raised",
 ]
 ASSUMPTIONS = [
     "Rule.build()'s first element (the domain part) is produced from the rule's declared subdomain/host template, not from the request path",
@@ -216,6 +218,13 @@ class Abs:
     def nothing(self) -> bool:
         return not self.labs and not self.structured() and not self.urls and not self.plain
 
+    def all_urls(self) -> list[Url]:
+        """the URL shapes of the value and of its parts."""
+        out = list(self.urls)
+        for x in self.parts():
+            out += [u for u in x.all_urls() if not any(u is y for y in out)]
+        return out
+
     def cooked(self, note: tuple[str, ...] = (), select: bool = False, vague: bool = False) -> "Abs":
         """the value went through an operation: labels only.  select: a *part* of the value is taken (labels that
         belong to some parts only can then no longer be attributed); vague: a construct the interpreter does not model."""
@@ -224,7 +233,7 @@ class Abs:
         het = self.hetero() & nm
         if select:
             weak |= het
-        lost = tuple(f"{URL_LOST} ({u.desc()}) went through an operation that is not modelled" for u in self.urls)
+        lost = tuple(f"{URL_LOST} ({u.desc()}) went through an operation that is not modelled" for u in self.all_urls())
         return Abs(frozenset((n, False) for n in nm), notes=tuple(dict.fromkeys(self.notes + note + lost)), het=frozenset(het - weak), weak=frozenset(weak))
 
 
@@ -682,9 +691,33 @@ class Interp:
         finally:
             fr.busy.discard(id(d))
 
-    def query_tail(self, e: ast.AST | None, fr: Frame) -> Labels | None:
-        """``f"?{q}"`` / ``"?" + q`` -> labels of q (unchanged-flags kept)."""
-        return self.query_tail_pieces(self.pieces(e, fr, resolve=False), fr) if e is not None else None
+    def query_tail(self, e: ast.AST | None, fr: Frame, depth: int = 0) -> Labels | None:
+        """``f"?{q}"`` / ``"?" + q`` -> labels of q (unchanged-flags kept); also held in a local, and as one alternative
+        of a conditional expression whose other alternative is the empty string (no query: nothing appended)."""
+        if e is None or depth > 4:
+            return None
+        if isinstance(e, ast.Name):
+            r = self.single_value(e, fr)
+            return self.query_tail(r, fr, depth + 1) if r is not e else None
+        if isinstance(e, ast.IfExp):
+            alts = [frozenset() if const_str(x) == "" else self.query_tail(x, fr, depth + 1) for x in (e.body, e.orelse)]
+            if any(a is None for a in alts) or not any(alts):
+                return None
+            return frozenset().union(*alts)  # type: ignore[arg-type]
+        return self.query_tail_pieces(self.pieces(e, fr, resolve=False), fr)
+
+    def url_with_tail(self, pieces: list[Piece], fr: Frame) -> Abs | None:
+        """<an assembled URL> followed by a query tail -> the URL with that query."""
+        if len(pieces) < 2 or pieces[0][0] != "e":
+            return None
+        first = self.ev(pieces[0][1], fr)
+        if not first.urls or first.plain:
+            return None
+        rest = pieces[1:]
+        tail = self.query_tail(rest[0][1], fr) if len(rest) == 1 and rest[0][0] == "e" else self.query_tail_pieces(rest, fr)
+        if tail is None:
+            return None
+        return Abs(urls=tuple(u.with_query(tail) for u in first.urls), plain=False)
 
     def query_tail_pieces(self, pieces: list[Piece], fr: Frame) -> Labels | None:
         pieces = self._fuse(pieces)
@@ -741,7 +774,19 @@ class Interp:
         if isinstance(e, ast.IfExp):
             return join(self.ev(e.body, fr), self.ev(e.orelse, fr))
         if isinstance(e, ast.BoolOp):
-            return join_all(self.ev(v, fr) for v in e.values)
+            # `a or b`: b is not evaluated when a is a true constant, a is not the result when it is a false one
+            is_or = isinstance(e.op, ast.Or)
+            outs: list[Abs] = []
+            for i, x in enumerate(e.values):
+                v = self.ev(x, fr)
+                truth = {bool(c) for c in v.consts} if v.consts and not v.flat() and not v.structured() and not v.urls else None
+                if truth == {is_or}:
+                    outs.append(v)
+                    break
+                if truth == {not is_or} and i < len(e.values) - 1:
+                    continue
+                outs.append(v)
+            return join_all(outs)
         if isinstance(e, ast.NamedExpr):
             return self.ev(e.value, fr)
         if isinstance(e, ast.BinOp) and isinstance(e.op, ast.Add):
@@ -751,14 +796,16 @@ class Interp:
                 chain.insert(0, cur.right)
                 cur = cur.left
             first = self.ev(cur, fr)
-            if first.urls and not first.plain:  # url + "?" + query
-                tail = self.query_tail_pieces([p for x in chain for p in self.pieces(x, fr, resolve=False)], fr)
-                if tail is not None:
-                    return Abs(urls=tuple(u.with_query(tail) for u in first.urls), plain=False)
+            if first.urls and not first.plain:  # url + "?" + query, url + <local holding "?" + query>
+                got = self.url_with_tail([("e", cur)] + self._fuse([p for x in chain for p in self.pieces(x, fr, resolve=False)]), fr)
+                if got is not None:
+                    return got
             rest = [self.ev(x, fr) for x in chain]
             if all(x.structured() and x.keys is None and not x.labs and not x.urls for x in [first] + rest):
                 return Abs(it=join_all(part(x) for x in [first] + rest))  # sequences concatenated: the elements of all of them
             return join_all([first] + rest).cooked()
+        if isinstance(e, ast.BinOp) and isinstance(e.op, ast.Mod) and composed_parts(e) is not None:
+            return self.ev_composed(e, fr)  # "%s?%s" % (url, query)
         if isinstance(e, ast.JoinedStr):
             if len(e.values) >= 2 and isinstance(e.values[0], ast.FormattedValue) and e.values[0].conversion == -1 and e.values[0].format_spec is None:
                 left = self.ev(e.values[0].value, fr)
@@ -792,6 +839,18 @@ class Interp:
         callee = self.self_callee(c, fr)
         if callee is not None:
             return self.inline(callee, c, fr)
+        comp = composed_parts(c)
+        if comp is not None:  # "?".join((url, query)), "{}?{}".format(url, query): the same as the f-string
+            return self.ev_composed(c, fr)
+        if isinstance(c.func, ast.Attribute) and c.func.attr == "join" and const_str(c.func.value) == "?" and len(c.args) == 1 and not c.keywords and not isinstance(c.args[0], ast.Starred):
+            # "?".join(parts), parts a list that starts with the assembled URL: what else is (later) put into it is the query
+            v = self.ev(c.args[0], fr)
+            if v.tup and v.keys is None and not v.labs and v.tup[0].urls and not v.tup[0].plain and not v.tup[0].structured():
+                rest = list(v.tup[1:]) + ([v.it] if v.it is not None else [])
+                tail: set = set()
+                for x in rest:
+                    tail |= _keep_raw(x)
+                return Abs(urls=tuple(u.with_query(frozenset(tail)) for u in v.tup[0].urls), plain=False)
         fq = self.resolves_to(fr, c.func)
         if fq == URLUNSPLIT:
             return self.ev_urlunsplit(c, fr)
@@ -878,13 +937,11 @@ class Interp:
             return out
         if isinstance(e, ast.BinOp) and isinstance(e.op, ast.Add):
             return self.pieces(e.left, fr, resolve) + self.pieces(e.right, fr, resolve)
-        if isinstance(e, ast.Call) and isinstance(e.func, ast.Attribute) and e.func.attr == "join" and const_str(e.func.value) is not None and len(e.args) == 1 and isinstance(e.args[0], (ast.Tuple, ast.List)) and not any(isinstance(x, ast.Starred) for x in e.args[0].elts):
-            sep = const_str(e.func.value)
+        comp = composed_parts(e)
+        if comp is not None:
             out = []
-            for i, x in enumerate(e.args[0].elts):
-                if i and sep:
-                    out.append(("c", sep))
-                out += self.pieces(x, fr, resolve)
+            for x in comp:
+                out += [("c", x.value)] if isinstance(x, ast.Constant) and isinstance(x.value, str) and getattr(x, "lineno", None) is None else self.pieces(x, fr, resolve)
             return out
         return [("e", e)]
 
@@ -994,13 +1051,28 @@ class Interp:
             self._inlined = saved
         return v
 
-    def ev_fstring(self, e: ast.JoinedStr, fr: Frame) -> Abs:
-        raw = self._fuse(self.pieces(e, fr, resolve=False))
-        texts = [p[1] for p in raw if p[0] == "c"]
-        exprs = [p[1] for p in raw if p[0] == "e"]
-        flat_all = join_all(self.ev(x, fr) for x in exprs).cooked() if exprs else Abs(plain=True)
-        if not any("//" in s for s in texts):
-            return flat_all  # not an absolute URL form: a plain string
+    def ev_composed(self, e: ast.AST, fr: Frame) -> Abs:
+        """a string put together from pieces by str.join / str.format / %: an assembled URL plus a query tail, an
+        absolute URL form, or a plain string."""
+        got = self.url_with_tail(self._fuse(self.pieces(e, fr, resolve=False)), fr)
+        return got if got is not None else self.ev_fstring(e, fr)
+
+    def piece_alternatives(self, raw: list[Piece], fr: Frame) -> tuple[ast.IfExp, list[list[Piece]]] | None:
+        """one piece (possibly through a local) is a conditional expression between two string compositions of which one
+        holds the `//` of an absolute URL (`netloc = f"{scheme}://{host}" if scheme else f"//{host}"`): the two piece
+        lists the whole composition can be, with the condition."""
+        for i, p in enumerate(raw):
+            if p[0] != "e":
+                continue
+            v = self.single_value(p[1], fr)
+            if not isinstance(v, ast.IfExp):
+                continue
+            subs = [self.pieces(b, fr, resolve=False) for b in (v.body, v.orelse)]
+            if any(q[0] == "c" and "//" in q[1] for sp in subs for q in sp):
+                return v, [self._fuse(raw[:i] + sp + raw[i + 1:]) for sp in subs]
+        return None
+
+    def _zones(self, raw: list[Piece], fr: Frame) -> dict[str, list[Piece]]:
         zones: dict[str, list[Piece]] = {"scheme": [], "netloc": [], "path": [], "query": []}
         state = "scheme"
         for p in raw:
@@ -1039,18 +1111,47 @@ class Interp:
                 else:
                     zones["query"].append(("c", s))
                     s = ""
+        return zones
 
-        def zv(z: str) -> Abs:
-            return join_all(self.ev(p[1], fr) for p in zones[z] if p[0] == "e")
+    @staticmethod
+    def _as_expr(pieces: list[Piece]) -> ast.AST:
+        """the pieces as one (synthetic) f-string."""
+        return ast.JoinedStr(values=[ast.Constant(value=p[1]) if p[0] == "c" else ast.FormattedValue(value=p[1], conversion=-1, format_spec=None) for p in pieces])
 
-        ok, fact, plabs = self.check_path(zones["path"], fr, prefix=[p[1] for p in zones["scheme"] + zones["netloc"] if p[0] == "e"])
-        q: set = set()
-        for p in zones["query"]:
-            if p[0] == "e":
-                q |= _keep_raw(self.ev(p[1], fr))
-        self.scheme_sites.append((e, fr, self._fuse(zones["scheme"])))
-        sv, nv = zv("scheme"), self._ev_host(self._fuse(zones["netloc"]), e, fr)
-        return self._register(Url(e, fr.fi, "f-string {scheme}//{host}{root}/{path}", sv.flat(), nv.flat(), plabs, ok, fact, frozenset(q), _weak_positions(sv, nv)))
+    def _zone_pieces(self, variants: list[dict[str, list[Piece]]], zone: str, cond: ast.IfExp | None) -> list[Piece]:
+        """the pieces of one position for the constant executor: the same in every variant, or one synthetic conditional
+        expression over the variants (evaluated where the real one is)."""
+        per = [self._fuse(z[zone]) for z in variants]
+        if len(per) == 1 or cond is None or all([(k, v if k == "c" else norm(v)) for k, v in x] == [(k, v if k == "c" else norm(v)) for k, v in per[0]] for x in per[1:]):
+            return per[0]
+        synth = ast.IfExp(test=cond.test, body=self._as_expr(per[0]), orelse=self._as_expr(per[1]))
+        synth._anchor = cond  # type: ignore[attr-defined]
+        return [("e", synth)]
+
+    def ev_fstring(self, e: ast.AST, fr: Frame) -> Abs:
+        raw = self._fuse(self.pieces(e, fr, resolve=False))
+        alt = self.piece_alternatives(raw, fr)
+        variants = alt[1] if alt is not None else [raw]
+        if alt is None or not all(any(p[0] == "c" and "//" in p[1] for p in v) for v in variants):
+            variants, alt = [raw], None
+        if not any(p[0] == "c" and "//" in p[1] for p in variants[0]):
+            exprs = [p[1] for p in raw if p[0] == "e"]
+            return join_all(self.ev(x, fr) for x in exprs).cooked() if exprs else Abs(plain=True)  # not an absolute URL form: a plain string
+        zs = [self._zones(v, fr) for v in variants]
+        cond = alt[0] if alt is not None else None
+        self.scheme_sites.append((e, fr, self._zone_pieces(zs, "scheme", cond)))
+        nv = self._ev_host(self._zone_pieces(zs, "netloc", cond), e, fr)
+        out = BOTTOM
+        for zones in zs:
+            ok, fact, plabs = self.check_path(zones["path"], fr, prefix=[p[1] for p in zones["scheme"] + zones["netloc"] if p[0] == "e"])
+            q: set = set()
+            for p in zones["query"]:
+                if p[0] == "e":
+                    q |= _keep_raw(self.ev(p[1], fr))
+            sv = join_all(self.ev(p[1], fr) for p in zones["scheme"] if p[0] == "e")
+            hv = join_all(self.ev(p[1], fr) for p in zones["netloc"] if p[0] == "e") if len(zs) > 1 else nv
+            out = join(out, self._register(Url(e, fr.fi, "f-string {scheme}//{host}{root}/{path}", sv.flat(), hv.flat(), plabs, ok, fact, frozenset(q), _weak_positions(sv, hv))))
+        return out
 
 
 # ---------------------------------------------------------------------
@@ -1215,6 +1316,11 @@ def run(ctx: Ctx) -> None:
     # floor 1: every redirect site above already owes a positional assembly; two redirects may share one assembly helper
     ctx.floor("R12.1", "URL assembly sites reached from the redirect sites", len(ip.url_sites), 1)
     for u in sorted(ip.url_sites.values(), key=lambda u: (u.where.fq, getattr(u.site, "lineno", 0))):
+        if id(u.site) not in router_sites:
+            # a URL form that is not itself the value of a router redirect (the application-supplied redirect_to base, a
+            # scheme://host prefix that is extended further): a redirect made from it owes the obligations above
+            ctx.note(f"R12.1: {u.where.qualname}: the {u.form.split('(')[0].split(' ')[0]} at {u.where.loc(u.site)} is not the value of a router redirect: path position not judged")
+            continue
         if u.path_ok is None:  # shape not understood: neither a pass nor a finding
             ctx.error(f"R12.1: {u.where.qualname}: path position of the {u.form.split('(')[0].split(' ')[0]} at {u.where.loc(u.site)}: {u.path_fact}")
             continue
@@ -1298,6 +1404,39 @@ def _context_params(ex: ConstExec, fr: Frame) -> dict[str, t.Any]:
     return out
 
 
+def _context_alternatives(ex: ConstExec, fr: Frame, limit: int = 12) -> list[dict[str, t.Any]]:
+    """like _context_params, but an argument that takes several constant values on the caller's paths (a scheme
+    normalised in the caller and handed to the function that assembles the URL) gives one alternative per value;
+    arguments are varied independently (an over-approximation of the caller's paths)."""
+    base = _context_params(ex, fr)
+    if fr.parent is None or fr.call is None or any(isinstance(x, ast.Starred) for x in fr.call.args) or any(k.arg is None for k in fr.call.keywords):
+        return [base]
+    a = fr.fi.node.args  # type: ignore[attr-defined]
+    pos = [x.arg for x in a.posonlyargs + a.args]
+    if fr.fi.cls is not None and "staticmethod" not in fr.fi.decorators and pos:
+        pos = pos[1:]
+    given = [(pos[i], x) for i, x in enumerate(fr.call.args) if i < len(pos)] + [(k.arg, k.value) for k in fr.call.keywords]
+    alts = [base]
+    for palt in _context_alternatives(ex, fr.parent, limit):
+        try:
+            _, seen = ex.explore(fr.parent.fi, palt, [x for _, x in given])
+        except BudgetExceeded:
+            return [base]
+        for name, x in given:
+            vals = seen[id(x)]
+            if name in base or len(vals) < 2 or any(v is UNKNOWN or not (v is None or isinstance(v, (str, bool, int))) for v in vals):
+                continue
+            new = [dict(alt, **{name: v}) for alt in alts for v in vals if name not in alt] + [alt for alt in alts if name in alt]
+            if len(new) > limit:
+                return [base]
+            alts = new
+    out: list[dict[str, t.Any]] = []
+    for alt in alts:
+        if alt not in out:
+            out.append(alt)
+    return out
+
+
 def _scheme_rule(ctx: Ctx, ip: Interp, router_sites: set[int]) -> None:
     if not ip.scheme_attrs:
         raise AnalysisError(f"MapAdapter.__init__ stores its `{SCHEME_PARAM}` parameter in no attribute")
@@ -1324,18 +1463,21 @@ def _scheme_rule(ctx: Ctx, ip: Interp, router_sites: set[int]) -> None:
             row: list[str] = []
             for s in SCHEMES:
                 ex = execs.setdefault(s, ConstExec(ctx.repo, {a: s for a in ip.scheme_attrs}))
-                params = _context_params(ex, fr)
-                ptxt = ", ".join(f"{k}={v!r}" for k, v in sorted(params.items())) or "no constant arguments"
-                try:
-                    _, seen = ex.explore(fr.fi, params, exprs)
-                except BudgetExceeded:
-                    raise AnalysisError(f"{fi.qualname}: too many paths to evaluate the scheme position of the {form} at {fi.loc(site)}") from None
-                texts: list[t.Any] = [""]
-                for p in pieces:
-                    if p[0] == "c":
-                        texts = [x if x is UNKNOWN else x + p[1] for x in texts]
-                    else:
-                        texts = [UNKNOWN if (x is UNKNOWN or v is UNKNOWN or not (v is None or isinstance(v, str))) else x + (v or "") for x in texts for v in seen[id(p[1])]]
+                alternatives = _context_alternatives(ex, fr)
+                ptxt = " | ".join(", ".join(f"{k}={v!r}" for k, v in sorted(params.items())) or "no constant arguments" for params in alternatives)
+                texts: list[t.Any] = []
+                for params in alternatives:
+                    try:
+                        _, seen = ex.explore(fr.fi, params, exprs)
+                    except BudgetExceeded:
+                        raise AnalysisError(f"{fi.qualname}: too many paths to evaluate the scheme position of the {form} at {fi.loc(site)}") from None
+                    part_texts: list[t.Any] = [""]
+                    for p in pieces:
+                        if p[0] == "c":
+                            part_texts = [x if x is UNKNOWN else x + p[1] for x in part_texts]
+                        else:
+                            part_texts = [UNKNOWN if (x is UNKNOWN or v is UNKNOWN or not (v is None or isinstance(v, str))) else x + (v or "") for x in part_texts for v in seen[id(p[1])]]
+                    texts += part_texts
                 if not texts:
                     continue  # not reached in this context
                 reached += 1
@@ -1442,6 +1584,23 @@ def _host_rule(ctx: Ctx, ip: Interp, router_sites: set[int]) -> None:
 # R12.2
 
 
+def _argument_for(fr: Frame, param: str) -> ast.AST | None:
+    """the argument expression the call that entered `fr` passes for `param` (None: default / * / ** / not found)."""
+    call = fr.call
+    if call is None or any(isinstance(x, ast.Starred) for x in call.args) or any(k.arg is None for k in call.keywords):
+        return None
+    a = fr.fi.node.args  # type: ignore[attr-defined]
+    pos = [x.arg for x in a.posonlyargs + a.args]
+    if fr.fi.cls is not None and "staticmethod" not in fr.fi.decorators and pos:
+        pos = pos[1:]
+    for k in call.keywords:
+        if k.arg == param:
+            return k.value
+    if param in pos and pos.index(param) < len(call.args):
+        return call.args[pos.index(param)]
+    return None
+
+
 def _matcher_path(ctx: Ctx, ip: Interp, top: Frame) -> None:
     match = top.fi
     mm = ctx.repo.func(f"{MATCHER}.match")
@@ -1452,7 +1611,8 @@ def _matcher_path(ctx: Ctx, ip: Interp, top: Frame) -> None:
     # the call to the matcher: a `.match(...)` call on something other than self inside a try that handles RequestPath
     calls = []
     for tr in walk_no_nested(match.node):
-        if isinstance(tr, ast.Try) and any((dotted(h.type) or "").endswith("RequestPath") for h in tr.handlers if h.type is not None):
+        if isinstance(tr, ast.Try) and any((dotted(x) or "").endswith("RequestPath") for h in tr.handlers if h.type is not None
+                                           for x in (h.type.elts if isinstance(h.type, ast.Tuple) else [h.type])):
             for st in tr.body:
                 for c in astq.calls(st, nested=False):
                     if isinstance(c.func, ast.Attribute) and c.func.attr == "match" and not astq.is_name(c.func.value, "self"):
@@ -1463,37 +1623,67 @@ def _matcher_path(ctx: Ctx, ip: Interp, top: Frame) -> None:
         if arg is None:
             raise AnalysisError(f"matcher call at {match.loc(c)} passes no path")
         labs = ip.ev(arg, top).flat()
-        alts: list[ast.AST] = []
+        alts: list[tuple[ast.AST, Frame]] = []
+        opaque: list[str] = []  # alternatives that could not be followed to a string composition
 
-        def expand(e: ast.AST) -> None:
-            e = ip.single_value(e, top)
+        def returned(call: ast.Call, fr: Frame, index: int | None, depth: int) -> bool:
+            """the call runs a function of the routing package: what it returns (element `index` of the returned tuples)."""
+            callee = ip.self_callee(call, fr)
+            if callee is None or depth > 3 or callee.fq in fr.stack:
+                return False
+            nf = ip.call_frame(callee, call, fr)
+            rets = [r for r in astq.returns_of(callee.node) if r.value is not None and ip.feasible(r, nf)]
+            if not rets or (index is not None and not all(isinstance(ip.single_value(r.value, nf), ast.Tuple) and index < len(ip.single_value(r.value, nf).elts) for r in rets)):
+                return False
+            for r in rets:
+                v = ip.single_value(r.value, nf)
+                expand(v if index is None else v.elts[index], nf, depth + 1)
+            return True
+
+        def expand(e: ast.AST, fr: Frame, depth: int = 0) -> None:
+            e = ip.single_value(e, fr)
             if isinstance(e, ast.IfExp):
-                expand(e.body)
-                expand(e.orelse)
+                expand(e.body, fr, depth)
+                expand(e.orelse, fr, depth)
             elif isinstance(e, ast.Name):
-                node = top.cfg.node_of(e)
-                ds = [d for d in (top.rd.reaching(node, e.id) if node is not None else [])]
+                node = fr.cfg.node_of(e)
+                ds = [d for d in (fr.rd.reaching(node, e.id) if node is not None else [])]
                 if ds and all(d.kind == "assign" and d.value is not None for d in ds):
                     for d in ds:
-                        expand(d.value)
+                        expand(d.value, fr, depth)
+                elif ds and all(d.kind == "param" for d in ds) and fr.call is not None and fr.parent is not None and depth <= 3:
+                    given = _argument_for(fr, e.id)  # the argument of the call this frame was entered by
+                    if given is not None:
+                        expand(given, fr.parent, depth + 1)
+                    else:
+                        alts.append((e, fr))
+                elif ds and all(d.kind == "unpack" and d.index is not None and isinstance(d.value, ast.Call) for d in ds) \
+                        and all(returned(d.value, fr, d.index, depth) for d in ds):
+                    pass  # `a, b = self._helper(...)`: element of the tuples the helper returns
                 else:
-                    alts.append(e)
+                    if ds and not all(d.kind == "param" for d in ds):
+                        opaque.append(norm(e))
+                    alts.append((e, fr))
+            elif isinstance(e, ast.Call) and returned(e, fr, None, depth):
+                pass
             else:
-                alts.append(e)
+                alts.append((e, fr))
 
-        expand(arg)
+        expand(arg, top)
         problems: list[str] = []
-        doubts: list[str] = []
+        doubts: list[str] = [f"cannot tell how `{x}` is put together" for x in dict.fromkeys(opaque)]
         shapes: list[str] = []
-        for a in alts:
-            ps = ip._fuse(ip.pieces(a, top))
+        for a, afr in alts:
+            ps = ip._fuse(ip.pieces(a, afr))
             shapes.append(" + ".join(repr(p[1]) if p[0] == "c" else f"`{norm(p[1])}`" for p in ps) or "''")
             if not ps:
                 continue  # empty path for an empty request path
+            if norm(a) in opaque:
+                continue  # not followed: a doubt (above), not a finding
             if not (ps[0][0] == "c" and ps[0][1].startswith("/") and not ps[0][1].startswith("//")):
                 problems.append(f"`{norm(a)}` does not start with a single literal '/'")
             for i, p in enumerate(ps):
-                if p[0] != "e" or not ip.ev(p[1], top).flat():
+                if p[0] != "e" or not ip.ev(p[1], afr).flat():
                     continue
                 ex = p[1]
                 st = ip._strip_state(ex, both_ends=False)
